@@ -23,14 +23,14 @@ CLAIMED = {
     },
     "C17": {
         "category": "exploration",
-        "text": "Generated acyclic module graphs (1..6 files incl. packages nested up to three levels) live in the simulated file system; the main module imports them in every form (whole, renamed, selected symbols with renames, repeated, transitive), optionally while a user fiber (paced by rendezvous so that it completes at a seeded point) is alive across the imports and with fibers inside module bodies (synchronous or buffered channels; bodies that end while a second sender or a worker of the module is still parked on the module's channel); packages sharing leaf names; exported variables that the module reassigns later and exports holding nil (every import statement yields a snapshot of the exported values of that moment); one module file may carry an injected read fault (not found / permission denied / invalid UTF-8); missing modules, non-exported and private names are requested on purpose. A module-graph model gives the expected marker order (first-import DFS, exactly once, before the importer continues), exported values, the private counter observable only through its export, and which runs must end with an ImportError before any later statement.",
+        "text": "Generated acyclic module graphs (1..6 files incl. packages nested up to three levels) live in the simulated file system; the main module imports them in every form (whole, renamed, selected symbols with renames, repeated, transitive), optionally while a user fiber (paced by rendezvous so that it completes at a seeded point) is alive across the imports and with fibers inside module bodies (synchronous or buffered channels; bodies that end while a second sender or a worker of the module is still parked on the module's channel); packages sharing leaf names; exports that carry the name of a method every object has (str, equals, cls), modules with exactly 255 and 256 exports, exported variables that the module reassigns later and exports holding nil (every import statement yields a snapshot of the exported values of that moment); one module file may carry an injected read fault (not found / permission denied / invalid UTF-8); missing modules, non-exported and private names are requested on purpose. A module-graph model gives the expected marker order (first-import DFS, exactly once, before the importer continues), exported values, the private counter observable only through its export, and which runs must end with an ImportError before any later statement.",
         "design_ref": "DESIGN.md section 3 C17",
         "note": "Imports are only legal at module scope (observed), so import failures cannot be caught; a parent package file is provided and run before a nested module as the shipped loader does.",
         "technique": "deterministic simulation: module graphs in a simulated fs with read faults and fibers alive across imports, module-graph model as oracle",
     },
     "C19": {
         "category": "exploration",
-        "text": "Generated prompt sessions (4..18 entries: lets, functions, classes, subclasses, instances, closures, functions with property/method/super sites called many entries later, module imports and calls into them, fibers within an entry and fibers launched by one entry and used by later ones, functions of later entries assigning to variables of earlier entries, entries whose definitions take effect before they raise, fibers parked on a channel across several entries and served by a later one, a line given up because a fiber it launched raised while the line was parked, failed imports repeated under another name, and failing entries of 9 kinds incl. failing imports) are fed through the scripted read_line seam under seeded GC schedules; stdout with prompts stripped must equal Vm::run on the concatenation of the successful entries; failing entries must produce diagnostics and leave the session usable; EOF is injected after every prefix (enumerated) and the cut session must print a prefix of the full session and exit 0.",
+        "text": "Generated prompt sessions (4..18 entries: lets, functions, classes, subclasses, instances, closures, functions with property/method/super sites called many entries later, module imports and calls into them, fibers within an entry and fibers launched by one entry and used by later ones, functions of later entries assigning to variables of earlier entries, entries whose definitions take effect before they raise, fibers parked on a channel across several entries and served by a later one, a line given up because a fiber it launched raised while the line was parked, failed imports repeated under another name, a missing module that the session then writes itself and imports again, and failing entries of 9 kinds incl. failing imports) are fed through the scripted read_line seam under seeded GC schedules; stdout with prompts stripped must equal Vm::run on the concatenation of the successful entries; failing entries must produce diagnostics and leave the session usable; EOF is injected after every prefix (enumerated) and the cut session must print a prefix of the full session and exit 0.",
         "design_ref": "DESIGN.md section 3 C19",
         "note": "Failing entries are constructed to have no effect before they fail (or carry what took effect as an explicit third element); results of fibers that live across entries are observed through order-independent sums.",
         "technique": "deterministic simulation: scripted stdin sessions with failing entries and EOF injected at every prefix, differential against one-file execution",
